@@ -816,7 +816,7 @@ def replay(path):
     return 1 if (out.oracle_violations or out.mismatches) else 0
 
 
-SCOPE = ("full for the modelled scope: all 18 theorems of Properties/C06.v are proved for every history of the eleven modelled operations (axiom-free): "
+SCOPE = ("full for the modelled scope: all 20 theorems of Properties/C06.v are proved for every history of the eleven modelled operations (axiom-free): "
          "module balance = sum of live locks; accumulation(>= d) = sum over live locks for every denomination and d >= 0; reference entries exact and every "
          "iterator = definitional filter (store.go composites = concatenation of their iterators, never failing); conservation; owner-only / not-early "
          "(balance growth per operation bounded by the account's own matured locks, force-unlock guarded by owner + allow-list); lawful evolution of every "
